@@ -53,3 +53,30 @@ Print Assumptions C07_root_terminal_spec.
 From FG.gen Require Import Sites_gen.
 Theorem C07_sites_recognised : forallb (fun b => b) sites_C07 = true.
 Proof. vm_compute. reflexivity. Qed.
+
+(* the named hypothesis [1 <= thr] discharged for the engine's own thresholds: gen/Tables_gen.v holds
+   LmpMovesSearched(depth) for depth 0..2*MaxDepth as the running engine returns them (regenerated on every
+   run); the move loop of [search] runs only at depth >= 1 *)
+From FG.gen Require Import Tables_gen.
+Definition lmp_thr (depth : nat) : nat := Z.to_nat (nth depth c_lmp_moves_searched 0%Z).
+
+Theorem C07_lmp_threshold_positive :
+  forall depth, 1 <= depth <= 2 * Z.to_nat c_max_depth -> 1 <= lmp_thr depth.
+Proof.
+  assert (H : forallb (fun d => Nat.leb 1 (lmp_thr d)) (seq 1 (2 * Z.to_nat c_max_depth)) = true)
+    by (vm_compute; reflexivity).
+  intros depth Hd. rewrite forallb_forall in H.
+  apply Nat.leb_le, H, in_seq. lia.
+Qed.
+
+Theorem C07_terminal_sound_engine_thresholds :
+  forall (depth : nat) (in_check hl : bool) (dec : nat -> ldec) (stop_end : bool) (flags : list bool),
+         1 <= depth <= 2 * Z.to_nat c_max_depth ->
+         search_verdict true in_check hl (lmp_thr depth) dec stop_end flags <> VNone ->
+         (hl = false \/ Forall (fun lg : bool => lg = false) flags) /\
+         (search_verdict true in_check hl (lmp_thr depth) dec stop_end flags = VMate <-> in_check = true).
+Proof.
+  intros depth in_check hl dec stop_end flags Hd.
+  apply terminal_sound, C07_lmp_threshold_positive, Hd.
+Qed.
+Print Assumptions C07_terminal_sound_engine_thresholds.
